@@ -226,7 +226,7 @@ impl Request {
     ) -> Result<Option<()>, crate::Response> {
         use crate::Response;
 
-        match stream.read(&mut *self.__buf__).await {
+        let n = match stream.read(&mut *self.__buf__).await {
             Ok (0) => return Ok(None),
             Err(e) => return match e.kind() {
                 std::io::ErrorKind::ConnectionReset => Ok(None),
@@ -235,15 +235,18 @@ impl Request {
                     Response::InternalServerError()
                 })(e))
             },
-            _ => ()
-        }
+            Ok (n) => n
+        };
 
         let mut r = Reader::new(unsafe {
             // pass detouched bytes
             // to resolve immutable/mutable borrowing
             // 
+            // only the bytes actually read are parsed: what follows them in
+            // the buffer is not part of this request
+            // 
             // SAFETY: `self.__buf__` itself is immutable
-            Slice::from_bytes(&*self.__buf__).as_bytes()
+            Slice::from_bytes(&self.__buf__[..n]).as_bytes()
         });
 
         match Method::from_bytes(r.read_while(|b| b != &b' ')) {
@@ -301,8 +304,8 @@ impl Request {
     ) -> CowSlice {
         let remaining_buf_len = remaining_buf.len();
 
-        if remaining_buf_len == 0 || *unsafe {remaining_buf.get_unchecked(0)} == 0 {
-            #[cfg(feature="DEBUG")] println!("\n[read_payload] case: remaining_buf.is_empty() || remaining_buf[0] == 0\n");
+        if remaining_buf_len == 0 {
+            #[cfg(feature="DEBUG")] println!("\n[read_payload] case: remaining_buf.is_empty()\n");
 
             let mut bytes = vec![0; size].into_boxed_slice();
             stream.read_exact(&mut bytes).await.unwrap();
